@@ -115,6 +115,7 @@ class Evaluator:
         self.conds: list = []
         self.feasible = True
         self.localfuncs: dict = {}
+        self.method_alias: dict = {}     # name -> (ast.Attribute, value then)
 
     # ------------------------------------------------------------------
     def ev(self, e: ast.AST) -> tuple:
@@ -364,6 +365,13 @@ class Evaluator:
     # -- calls --------------------------------------------------------------
     def ev_Call(self, e):
         f = e.func
+        if isinstance(f, ast.Name) and f.id in self.method_alias and \
+                self.env.get(f.id) == self.method_alias[f.id][1]:
+            # lookup = self._cache.get; lookup(k, d)  ==  self._cache.get(k, d)
+            attr_node = self.method_alias[f.id][0]
+            e2 = ast.Call(func=attr_node, args=e.args, keywords=e.keywords)
+            ast.copy_location(e2, e)
+            return self.ev_Call(e2)
         # forwarding facts
         fwd_a = self.sig.vararg is None or any(
             isinstance(a, ast.Starred) and isinstance(a.value, ast.Name)
@@ -581,6 +589,12 @@ class Evaluator:
             v = self.ev(s.value)
             for t in s.targets:
                 self.bind_target(t, v)
+                # name = obj.method  (a bound method kept for a later call)
+                if isinstance(t, ast.Name):
+                    if isinstance(s.value, ast.Attribute):
+                        self.method_alias[t.id] = (s.value, v)
+                    else:
+                        self.method_alias.pop(t.id, None)
         elif isinstance(s, ast.AnnAssign):
             if s.value is not None:
                 v = self.ev(s.value)
